@@ -6,7 +6,9 @@
 
 use alloc::string::ToString;
 use alloc::borrow::ToOwned;
-use chrono::{Duration, Utc};
+use chrono::Duration;
+#[cfg(test)]
+use chrono::Utc;
 use crate::config::SmartCalcConfig;
 use crate::types::{TokenType};
 use crate::tokinizer::{Tokinizer, read_currency};
@@ -23,10 +25,10 @@ pub fn text_regex_parser(config: &SmartCalcConfig, tokinizer: &mut Tokinizer, gr
                 if let Some(constant) = config.constant_pair.get(&tokinizer.language).and_then(|constants| constants.get(&text.to_string())) {
 
                     let token = match constant {
-                        ConstantType::Today     => Some(TokenType::Date(Utc::today().naive_utc(), config.get_time_offset())),
-                        ConstantType::Tomorrow  => Some(TokenType::Date(Utc::today().naive_utc() + Duration::days(1), config.get_time_offset())),
-                        ConstantType::Yesterday => Some(TokenType::Date(Utc::today().naive_utc() + Duration::days(-1), config.get_time_offset())),
-                        ConstantType::Now       => Some(TokenType::Time(Utc::now().naive_utc(), config.get_time_offset())),
+                        ConstantType::Today     => Some(TokenType::Date(tokinizer.session.now().date(), config.get_time_offset())),
+                        ConstantType::Tomorrow  => Some(TokenType::Date(tokinizer.session.now().date() + Duration::days(1), config.get_time_offset())),
+                        ConstantType::Yesterday => Some(TokenType::Date(tokinizer.session.now().date() + Duration::days(-1), config.get_time_offset())),
+                        ConstantType::Now       => Some(TokenType::Time(tokinizer.session.now(), config.get_time_offset())),
                         _ => None
                     };
 
